@@ -79,7 +79,7 @@ impl Check for Refs {
             let offs = w.cursor_offsets(i);
             let p = w.pos_at(offs[s.below(offs.len())]);
             let detail = |extra: Value| json!({ "text": text, "token": w.tok(i).text, "token_index": i, "role": format!("{:?}", w.tok(i).role), "cursor": [p.line, p.character], "extra": extra });
-            let sign = |sig: String| if ambiguous { "name-denotes-global-and-local".to_string() } else { sig };
+            let sign = |sig: String| if ambiguous { format!("name-denotes-global-and-local|{}|{}", sig, super::c12::role_class(&w, i)) } else { sig };
             let occ: Vec<usize> = w.occurrences.get(&b).cloned().unwrap_or_default();
             let want_all: BTreeSet<(usize, usize)> = occ.iter().map(|j| (w.laid.ranges[*j].start, w.laid.ranges[*j].end)).collect();
             let mut want_others = want_all.clone();
@@ -220,7 +220,7 @@ impl Check for Refs {
                 Ok(None) => r.fail(sign("rename-back-not-offered".into()), "after renaming, rename is no longer offered on the same occurrence", detail(json!({ "renamed": renamed }))),
                 Err((sig, what)) => r.fail(format!("{}|rename", sig), what, detail(json!({ "renamed": renamed }))),
             }
-            if r.failures.iter().any(|f| f.sig != "name-denotes-global-and-local") {
+            if r.failures.iter().any(|f| !f.sig.starts_with("name-denotes-global-and-local")) {
                 break;
             }
         }
